@@ -95,7 +95,7 @@ func layerOf(code int, msg string) string {
 	return l
 }
 
-var mosFrameRe = regexp.MustCompile(`(?m)^(github\.com/IrineSistiana/mosdns/v5/[^\s(]+)`)
+var mosFrameRe = regexp.MustCompile(`(?m)^(github\.com/IrineSistiana/mosdns/v5/\S+?)\((?:0x|\)|\{|\.\.\.|\?)`)
 
 func crashKey(stack string) string {
 	m := mosFrameRe.FindStringSubmatch(stack)
@@ -267,6 +267,9 @@ func childMain(jobPath string) {
 		// a hard ceiling so that a runaway allocation fails in this process only
 		lim := syscall.Rlimit{Cur: 8 << 30, Max: 8 << 30}
 		_ = syscall.Setrlimit(syscall.RLIMIT_AS, &lim)
+		// keep heap-in-use close to the live heap: garbage waiting for the next
+		// collection is not what "allocates without bound" is about
+		debug.SetGCPercent(25)
 		cs.runDamage()
 	default:
 		fmt.Fprintln(os.Stderr, "c19 child: bad mode")
